@@ -35,12 +35,17 @@ def run(tier, seed):
         for t, v in zip(tagged, verdicts):
             v["id"] = t["id"]
         r.add_cases(tagged, verdicts, nontrivial=lambda c: True)
+    # impl -> spec: event traces of the loops (first 3000 events of each) against spec/Vm.tla: a tail-call op code
+    # reuses its frame and leaves the stack at frame base + arguments (TailCallClosure), returns go where the
+    # frame was pushed from
+    vlib.vm_trace_check(r, cases, work, "c09")
     for env in (None, {"STEEL_JIT": "false"}):
         lc.replay_modules(vlib, cases, work, r, "c09.mod" + ("n" if env else ""), env=env, nontriv=lambda c: True)
     r.cov["rule"] = ("tail family of LangFam.tla: 20 loop shapes; the control-stack depth at loop exit after 2 iterations and after "
                      "100000 iterations is compared ((#%verif-depth) hook); the expected answer is computed by the reference machine, "
                      "where the depth is the number of continuation frames (so tail position is decided by the semantics, including two "
-                     "non-tail shapes that must differ); plus 10^6-iteration loops and deep non-tail recursion (no crash)")
+                     "non-tail shapes that must differ); plus 10^6-iteration loops and deep non-tail recursion (no crash); "
+                     "the interpreter's event trace of every loop validated by TLC against spec/Vm.tla (Trace_Vm.tla)")
     r.cov["exhaustive"] = True
     return r.finish()
 
